@@ -1,7 +1,7 @@
 """C19 Signature- and annotation-changing utilities keep the loop nest (ExoEquiv with input/output relations)."""
 from __future__ import annotations
 
-from ..common import Report, main_wrapper, scratch, seed
+from ..common import Report, main_wrapper, scratch, eff_seed
 from ..edgecheck import decide_edges
 from .. import utilunits
 from .args import parse
@@ -14,7 +14,7 @@ def main():
     rep = Report("C19", a.tier, "model_checking")
     quick = a.tier == "quick"
     sel = (lambda m, p: a.only in p.name()) if a.only else None
-    edges = utilunits.run(MODULES, seed(), cap=10 if quick else 40, select=sel, max_cands=40 if quick else None)
+    edges = utilunits.run(MODULES, eff_seed(), cap=10 if quick else 40, select=sel, max_cands=40 if quick else None)
     with scratch() as d:
         decide_edges(rep, edges, {"differ", "uninit", "cfg", "safety", "binvalid"},
                      stepbound=6000 if quick else 50000, workdir=d)
